@@ -128,6 +128,9 @@ def shm_path(name):
 
 def run_case(case, real_sleep=False):
     cfg = case["cfg"]
+    from vf.world import reset_interference
+
+    reset_interference()
     kind = cfg["kind"]
     U = case["U"]
     stats = {"views": 0, "ops_via_view": 0}
